@@ -509,7 +509,7 @@ fn parsed_check(case: &Value, stats: &mut Stats) -> CheckResult {
 pub fn property() -> Property {
     Property {
         id: "C02",
-        rule: "moves: valid positions (19 sources, counters at their limits included) x all 7,781 well-formed Move values of both colours \
+        rule: "moves: valid positions (20 sources, counters at their limits included) x all 7,781 well-formed Move values of both colours \
                through Board::make_move, Make::make, Make::make_raw and MoveChain::push. uci_strings: positions x UCI strings (all 20,481 \
                for ~1/6 of the positions, otherwise every string naming an occupied source square + mutated texts) as make::Uci and as \
                uci::Move. san_texts: positions (incl. the SAN family) x the canonical SAN of every legal move (must be accepted and make \
